@@ -5,6 +5,7 @@ import asyncio
 import json
 import os
 import random
+import time
 
 from lib import e2e, vlib
 from lib.vlib import tlc, validate_trace
@@ -132,6 +133,17 @@ def pressure_script(rnd, mb=(20, 26)):
             ("wait_end", reader)]
 
 
+def slow_link_script(rnd, direction=None):
+    """The link between client and server is slow (middlebox with small buffers that pauses after every chunk): the sending
+    process's link socket is full when the end of that direction reaches it, so its sink is closed while the flush of what
+    it still holds cannot complete at once.  Everything written must still arrive, followed by the end."""
+    d = direction or rnd.choice(["down", "up"])
+    reader, closer = ("app", "tgt_close") if d == "down" else ("tgt", "app_close")
+    n = rnd.randint(9 << 20, 11 << 20)
+    return [("up", rnd.randint(1, 2000)), ("sync",), ("link_slow", 0.008), (d, n), (closer, rnd.choice(["close", "fin"])),
+            ("wait_end", reader)]
+
+
 def slow_drain_script(rnd, direction=None):
     """The reader is so slow that what the kernels still hold for it when the writer closes takes longer to drain than the
     relay's close grace: the relay gives the silent opposite direction up and drops its sockets while the tail is still
@@ -160,6 +172,7 @@ def hold_script(rnd, big=(100000, 300000)):
 HOSTS = [("127.0.0.1", None), ("127.0.0.2", None), ("127.0.0.1", "localhost"), ("127.0.0.3", None)]
 
 
+SETTLE_TIMES = []   # seconds each batch needed to come back to the idle baseline (evidence only)
 HOLD_S = 5.0        # close grace of both relays (2 s) and a margin
 
 
@@ -210,7 +223,9 @@ async def run_batch(dep, flows_spec, seed, log=None, fid0=1, settle_cap=9.0, mbo
     if held:
         ev.append({"ev": "Reset", "flow": 0, "kind": "process", "conf": dep.conf.label, "ws": ws})
         ev.append({"ev": "Held", "c": held[0][0][0], "s": held[0][1][0], "flows": len(holders)})
+    t_settle = time.time()
     fin = await dep.stable_fds(baseline=base, cap=settle_cap)
+    SETTLE_TIMES.append(round(time.time() - t_settle, 2))
     ev.append({"ev": "Reset", "flow": 0, "kind": "process", "conf": dep.conf.label, "ws": ws})
     ev.append({"ev": "Settled", "c": fin[0][0], "s": fin[1][0]})
     ev.append({"ev": "Panic", "n": len(dep.panics())})
